@@ -753,6 +753,14 @@ void pen_case(uint64_t seed, const std::string& id, bool verbose)
                     mu = static_cast<double>(-ev[i].val) * rho; // g + mu/rho == 0 exactly: boundary of the active branch
                     g_count["al-boundary"]++;
                 }
+                else if (r >= 8)
+                {
+                    // NEGATIVE inequality multipliers ("any penalty / multiplier values"): with 0 < g <= -mu/rho the term
+                    // max(0, g + mu/rho) vanishes although the constraint is violated (seeded change C05/4 tested `fc > 0 ||`)
+                    mu = exact ? -rho * static_cast<double>(g.rng.range(1, 4)) : -g.rng.unit() * 4.0 * (g.rng.range(0, 1) ? rho : 1.0);
+                    if (r == 9 && ev[i].val > 0) mu = static_cast<double>(-ev[i].val) * rho * (exact ? 2.0 : 1.5); // 0 < g < -mu/rho
+                    g_count["al-negative-miu"]++;
+                }
                 else
                 {
                     mu = exact ? rho * static_cast<double>(g.rng.range(0, 4)) : g.rng.unit() * 4.0 * (g.rng.range(0, 1) ? rho : 1.0);
